@@ -24,7 +24,12 @@ def main():
         raise core.Timeout()
     signal.signal(signal.SIGALRM, on_alarm)
     signal.alarm(budget)
-    mod = importlib.import_module(f"props.{a.pid}")
+    try:
+        mod = importlib.import_module(f"props.{a.pid}")
+    except Exception:
+        traceback.print_exc()
+        print(f"[{a.pid}] internal error in the checking machinery (no verdict)")
+        sys.exit(3)
     ctx = core.Ctx(a.pid, a.tier, a.seed)
     try:
         if a.replay:
